@@ -2,8 +2,8 @@
 import vlib
 from vlib import doc_str, parse_sh, sh_str, kb
 
-RULE = ("correspondence: infer_text on every document of nesting<=2,width<=2, a base of array-of-objects documents and random "
-        "deeper documents; oracle (independent of the Coq model): the implementation's from_str(d) is recomputed in the check "
+RULE = ("correspondence: infer_text and infer_value (both entry points) on every document of nesting<=2,width<=2, a base of array-of-objects documents and random "
+        "deeper documents; oracle (independent of the Coq model, applied to each entry point with its own results): the implementation's from_str(d) / From<&Value>(d) is recomputed in the check "
         "from the implementation's from_str of the sub-documents of d by the property's own equations (scalar kinds, object "
         "= member names -> member shapes, equal elements -> Array, differing non-object elements -> Tuple in order, "
         "array of objects -> Array<Object> over the union of keys with everywhere-present keys unchanged and partly-present "
@@ -56,31 +56,35 @@ def run(ctx):
     keys = list(uniq)
     res, _ = ctx.correspond(["infer_text\t" + k for k in keys], "from_str on documents and all their sub-documents",
                             lambda l, r: r.startswith("OK") and r[3:4] in "ATO")
-    ctx.correspond(["infer_value\t" + k for k in keys[:20000]], "From<&Value> on documents")
-    shape = {}
-    for k, r in zip(keys, res):
-        if r is None:
-            return
-        if not r.startswith("OK "):
-            ctx.fail("inference of a valid duplicate-free document failed", "infer_text\t" + k, r)
-        else:
-            shape[k] = parse_sh(r[3:])
+    vres, _ = ctx.correspond(["infer_value\t" + k for k in keys], "From<&Value> on documents and all their sub-documents",
+                             lambda l, r: r.startswith("OK") and r[3:4] in "ATO")
     skipped = 0
-    for k, d in uniq.items():
-        if k not in shape:
-            continue
-        try:
-            exp = expected(d, lambda x: shape[doc_str(x)])
-        except KeyError:
-            continue
-        if exp is None:
-            skipped += 1
-            continue
-        if isinstance(d, (list, tuple)) and len(d) >= 2:
-            ctx.nontrivial.add("infer_text\t" + k)
-        if vlib.norm_sh(exp) != shape[k]:
-            ctx.fail("from_str(d) is not the composition of from_str of its parts", "infer_text\t" + k,
-                     {"got": sh_str(shape[k]), "expected": sh_str(vlib.norm_sh(exp))})
+    # the property speaks of "the shape inferred from one document": both entry points are judged, each against
+    # ITS OWN results on the sub-documents
+    for op, what, rs in (("infer_text", "from_str", res), ("infer_value", "From<&serde_json::Value>", vres)):
+        shape = {}
+        for k, r in zip(keys, rs):
+            if r is None:
+                return
+            if not r.startswith("OK "):
+                ctx.fail("inference of a valid duplicate-free document failed", op + "\t" + k, r)
+            else:
+                shape[k] = parse_sh(r[3:])
+        for k, d in uniq.items():
+            if k not in shape:
+                continue
+            try:
+                exp = expected(d, lambda x: shape[doc_str(x)])
+            except KeyError:
+                continue
+            if exp is None:
+                skipped += op == "infer_text"
+                continue
+            if isinstance(d, (list, tuple)) and len(d) >= 2:
+                ctx.nontrivial.add(op + "\t" + k)
+            if vlib.norm_sh(exp) != shape[k]:
+                ctx.fail("%s(d) is not the composition of %s of its parts" % (what, what), op + "\t" + k,
+                         {"got": sh_str(shape[k]), "expected": sh_str(vlib.norm_sh(exp))})
     ctx.notes["documents"] = len(uniq)
     ctx.notes["unspecified_skipped"] = skipped
 
